@@ -180,6 +180,21 @@ Theorem C33_point_fn : forall g cmds,
 Proof. exact draw_point_fn. Qed.
 Print Assumptions C33_point_fn.
 
+(* ---- histories ------------------------------------------------------------------------------------ *)
+
+(* any sequence of DRAW statements (without P), with WINDOW switched on or off anywhere in between: the pen
+   after the whole history is the walk, from where the pen was at the beginning, of the moves of all the
+   statements one after the other - each statement continues where the previous one stopped, also when that
+   one stopped with an error, and WINDOW on/off does not move the DRAW pointer; every statement starts with
+   fresh B/N prefixes from the scale, angle and colour the previous one left *)
+Theorem C33_history : forall ss g,
+  g_text g = false -> forallb stmt_paint_free ss = true ->
+  current (history g ss) = pen_after (current g) (snd (hist_plan (pst_of_g g) ss))
+  /\ pst_of_g (history g ss) = fst (hist_plan (pst_of_g g) ss)
+  /\ g_text (history g ss) = false.
+Proof. exact history_plan. Qed.
+Print Assumptions C33_history.
+
 (* ---- the reader ---------------------------------------------------------------------------------- *)
 
 (* DRAW of the text of any well-formed concrete syntax (any blanks before letters, numbers, commas and
